@@ -424,6 +424,7 @@ def extract_fn(item, opts, blocks, rewrites_log, as_stub=False):
                 xt = ''.join(tk(i)[1] for i in range(q + 3, e))
                 if tk(e)[1] == '{' and xt and xt in names:
                     ne += 1; v = tk(q + 1)[1]; x = xt[1:] if xt.startswith('&') else xt; iv = 'verif_e%d' % ne
+                    if x.endswith('.iter()'): x = x[:-7]      # `for v in X.iter()`: the same elements by reference
                     edits.append((tk(q + 1 - amp)[2], tk(q + 1)[3], R('4', text[tk(q + 1 - amp)[2]:tk(q + 1)[3]], iv)))
                     edits.append((tk(q + 3)[2], tk(e - 1)[3], R('4', text[tk(q + 3)[2]:tk(e - 1)[3]], '0..%s.len()' % x)))
                     edits.append((tk(e)[3], tk(e)[3], R('4', '', ' let %s = %s%s[%s];' % (v, '' if (xt in byval or amp) else '&', x, iv))))
@@ -1053,6 +1054,9 @@ def generate(unit_name):
             item = find_item(path, 'fn', name, opts.get('impl'))
             text = item.text; toks = tokenize(text); ci = code_tokens(toks)
             occ1 = find_code_occurrences(text, toks, ci, 0, len(ci) - 1, opts['first'])
+            # until="<code prefix>" [untiln=k] instead of last=: the fragment ends right BEFORE the statement starting with that prefix, so that
+            # statements inserted anywhere between `first` and that statement are part of the fragment
+            if 'until' in opts and 'last' not in opts: opts['last'] = opts['until']; opts['lastn'] = opts.get('untiln', '1')
             occ2 = find_code_occurrences(text, toks, ci, 0, len(ci) - 1, opts['last'])
             n1 = int(opts.get('firstn', 1)); n2 = int(opts.get('lastn', 1))
             if n1 > len(occ1) or n2 > len(occ2): raise GenErr('%s: fragment anchors not found' % name)
@@ -1060,6 +1064,7 @@ def generate(unit_name):
             # end of the statement that starts at `last`
             pp = next(k for k in range(len(ci)) if toks[ci[k]][2] >= occ2[n2 - 1][0])
             depth = 0; e0 = None
+            if 'until' in opts: e0 = occ2[n2 - 1][0]; pp = len(ci)
             while pp < len(ci):
                 y = toks[ci[pp]]
                 if y[0] == 'punct':
@@ -1080,9 +1085,9 @@ def generate(unit_name):
             frag = types.SimpleNamespace(text=text[s0:e0], name=name + '#fragment', line=item.line + text.count('\n', 0, s0), path=path, kind='fn', impl=item.impl)
             fblocks = {'_rewrites': blocks.get('_rewrites', []), '_lines': {}}
             for kx, vx in blocks.items():
-                if kx.startswith('before ') or kx.startswith('after ') or kx.startswith('loop') or kx.startswith('blockend ') or kx.startswith('fmax') or kx.startswith('iter'): fblocks[kx] = vx
+                if kx.startswith('before ') or kx.startswith('after ') or kx.startswith('afterloop ') or kx.startswith('loop') or kx.startswith('blockend ') or kx.startswith('fmax') or kx.startswith('iter'): fblocks[kx] = vx
             wrapper = types.SimpleNamespace(text='fn verif_frag() {' + frag.text + '}', name=frag.name, line=frag.line, path=path, kind='fn', impl=item.impl)
-            o2 = dict(opts); o2.pop('first', None); o2.pop('last', None); o2.pop('lastexpr', None); o2.pop('lastblock', None)
+            o2 = dict(opts); o2.pop('first', None); o2.pop('last', None); o2.pop('lastexpr', None); o2.pop('lastblock', None); o2.pop('until', None); o2.pop('untiln', None)
             body = extract_fn(wrapper, o2, fblocks, u.rewrites)
             # strip the synthetic wrapper again: keep what is between the first '{' and the last '}'
             inner = body[body.index('{') + 1: body.rindex('}')]
